@@ -34,7 +34,9 @@ LEVEL = "exploration"
 RULE = ("one run = one authorisation life cycle: an Intel-HEX signer image, an iteration (boundary and "
         "malformed values), `signapp message`, then 0..6 signing steps drawn from {key (authoriser / "
         "stranger / same authoriser again), eth (Ethereum-app model), manual (valid / malformed DER)}, a "
-        "save-load-save cycle, then `adm_ledger authorize_signer` against a UI model with n authorisers "
+        "save-load-save cycle, one authorisation object taken through 0..3 add_signature operations (valid "
+        "/ malformed) against a list model, then `adm_ledger authorize_signer` against a UI model with n "
+        "authorisers "
         "(threshold n/2+1) and a current iteration; non-trivial = the device received a SIGVER; distinct "
         "= (iteration class, signing-step kinds, #authorisers, device outcome)")
 TIERS = {"quick": {"runs": 6000, "wall": 240}, "thorough": {"runs": 120000, "wall": 3000}}
